@@ -305,7 +305,11 @@ func main() {
 	var scs []scenario
 	for n := 1; n <= 3; n++ {
 		for gi := range graphs {
+			tree := strings.HasPrefix(graphs[gi].Name, "G12") || strings.HasPrefix(graphs[gi].Name, "G13")
 			switch {
+			case r.Thorough() && n == 3 && tree:
+				// the unbounded search of these two does not fit in memory
+				scs = append(scs, scenario{n, gi, 3})
 			case r.Thorough():
 				scs = append(scs, scenario{n, gi, -1})
 			case n <= 2 || !(strings.HasPrefix(graphs[gi].Name, "G9") || strings.HasPrefix(graphs[gi].Name, "G12") || strings.HasPrefix(graphs[gi].Name, "G13")):
